@@ -840,8 +840,13 @@ func exitingConds(info *types.Info, body ast.Node, before token.Pos, subst map[t
 		if _, isRet := is.Body.List[len(is.Body.List)-1].(*ast.ReturnStmt); !isRet {
 			return true
 		}
-		// validation helper: if err := helper(args); err != nil { return ... }: the helper's own error conditions count
-		if as, ok := is.Init.(*ast.AssignStmt); ok && len(as.Rhs) == 1 && len(as.Lhs) == 1 {
+		// validation helper: if err := helper(args); err != nil { return ... } (or err := helper(args) as the statement
+		// before the test): the helper's own error conditions count
+		initAs, _ := is.Init.(*ast.AssignStmt)
+		if initAs == nil {
+			initAs = errAssignBefore(info, body, is)
+		}
+		if as := initAs; as != nil && len(as.Rhs) == 1 && len(as.Lhs) == 1 {
 			if call, ok := as.Rhs[0].(*ast.CallExpr); ok {
 				if be, ok := ast.Unparen(is.Cond).(*ast.BinaryExpr); ok && be.Op == token.NEQ && types.ExprString(be.X) == types.ExprString(as.Lhs[0]) && types.ExprString(be.Y) == "nil" {
 					if fn := core.Callee(info, call); fn != nil {
@@ -1357,8 +1362,14 @@ func c18Decoders(c *core.Ctx) {
 								}
 								return true
 							})
-							if is.Init != nil {
-								ast.Inspect(is.Init, func(m ast.Node) bool {
+							var initNode ast.Node = is.Init
+							if is.Init == nil {
+								if as := errAssignBefore(info, fd.Body, is); as != nil {
+									initNode = as
+								}
+							}
+							if initNode != nil {
+								ast.Inspect(initNode, func(m ast.Node) bool {
 									if sel, ok := m.(*ast.SelectorExpr); ok && info.Uses[sel.Sel] == types.Object(f) {
 										constrained = true
 									}
@@ -1551,4 +1562,34 @@ func byConstruction(info *types.Info, fd *ast.FuncDecl, guard string) bool {
 		return hasTest && hasInc && hasAppend
 	}
 	return false
+}
+
+// errAssignBefore: for `if X != nil { return ... }` with X a local error variable, the latest assignment X := call(...) /
+// X = call(...) that precedes the if in the same function.
+func errAssignBefore(info *types.Info, body ast.Node, is *ast.IfStmt) *ast.AssignStmt {
+	be, ok := ast.Unparen(is.Cond).(*ast.BinaryExpr)
+	if !ok || be.Op != token.NEQ || types.ExprString(be.Y) != "nil" {
+		return nil
+	}
+	id, ok := ast.Unparen(be.X).(*ast.Ident)
+	if !ok {
+		return nil
+	}
+	o := info.Uses[id]
+	var best *ast.AssignStmt
+	ast.Inspect(body, func(n ast.Node) bool {
+		as, ok := n.(*ast.AssignStmt)
+		if !ok || as.Pos() >= is.Pos() || len(as.Lhs) != 1 || len(as.Rhs) != 1 {
+			return true
+		}
+		lid, ok := as.Lhs[0].(*ast.Ident)
+		if !ok || (info.Defs[lid] != o && info.Uses[lid] != o) {
+			return true
+		}
+		if _, isCall := as.Rhs[0].(*ast.CallExpr); isCall && (best == nil || as.Pos() > best.Pos()) {
+			best = as
+		}
+		return true
+	})
+	return best
 }
